@@ -27,6 +27,10 @@ Kernels == {<<c>> : c \in Escapable}
 (* filler units: the first symbol is never a hex digit, each is closed under both transforms *)
 Fillers == {<<Pg>>, <<Hi1, Hi2>>, <<Sp>>, <<Bs, D2, D0>>}
 
+(* buffer sizes of golang.org/x/text/transform the kernels are swept across in addition to offsets 0..SweepMax: *)
+(* transform.Reader / transform.Writer work through 4096-byte source and destination buffers                   *)
+BufBounds == {4096}
+
 RepSeq(F, n) == FlattenSeq([i \in 1..n |-> F])
 FillerLaw ==
   \A s \in Kernels : \A F \in Fillers : \A n \in 0..2, m \in 0..2 : \A d \in {"esc", "unesc"} :
@@ -39,6 +43,6 @@ ASSUME ndJsonSerialize("vectors.ndjson", VecSeq)
 ASSUME ndJsonSerialize("sweeps.ndjson", SetToSeq({Vec(s) : s \in Kernels}))
 ASSUME JsonSerialize("plan.json",
          [bytes |-> ByteOf, other |-> Other, caps |-> SetToSeq(Caps), maxchunks |-> MaxChunks,
-          sweepmax |-> SweepMax, fillers |-> SetToSeq({Vec(F) : F \in Fillers})])
+          sweepmax |-> SweepMax, fillers |-> SetToSeq({Vec(F) : F \in Fillers}), bounds |-> SetToSeq(BufBounds)])
 ASSUME PrintT(<<"EMITTED", Len(VecSeq), Cardinality(Kernels), Cardinality(Fillers)>>)
 =============================================================================
